@@ -40,6 +40,40 @@ def register(prefix, props, n=4, s=2):
     # the object distance of a finite-conjugate lens (gap 0) is a thickness handle like any other
     for scaling in (True, False):
         _one(prefix, props, 'thickness', scaling, n, 0, tag='.object_gap')
+        _shared_medium(prefix, props, scaling)
+
+
+def _shared_medium(prefix, props, scaling):
+    @contract('%s.var.index.shared_medium_object.%s' % (prefix, 'scaled' if scaling else 'raw'),
+              [VAR + 'index.py:IndexVariable.get_value', VAR + 'index.py:IndexVariable.update_value', VAR + 'variable.py:Variable.update',
+               'optiland/optic.py:Optic.set_index'], props)
+    def shared(c):
+        """two elements declared with one and the same material object (public API: add_surface(material=instance)): their two index
+        handles are independent -- writing one leaves the other at the value last written to it"""
+        Optic = c.mod('optiland.optic').Optic
+        IdealMaterial = c.mod('optiland.materials').IdealMaterial
+        glass = IdealMaterial(n=c.real('n_glass', 1.3, 1.9, positive=True), k=0)
+        o = Optic()
+        o.add_surface(index=0, thickness=c.np.inf)
+        o.add_surface(index=1, radius=40.0, thickness=4.0, material=glass, is_stop=True)
+        o.add_surface(index=2, radius=-60.0, thickness=3.0)
+        o.add_surface(index=3, radius=35.0, thickness=4.0, material=glass)
+        o.add_surface(index=4, radius=-80.0, thickness=50.0)
+        o.add_surface(index=5)
+        o.add_wavelength(0.55, is_primary=True)
+        Variable = c.mod('optiland.optimization.variable.variable').Variable
+        v1 = Variable(o, 'index', apply_scaling=scaling, surface_number=1, wavelength=0.55)
+        v2 = Variable(o, 'index', apply_scaling=scaling, surface_number=3, wavelength=0.55)
+        x1, x2 = c.real('x1', 0.2, 3.0, positive=True), c.real('x2', 0.2, 3.0, positive=True)
+        v1.update(x1)
+        v2.update(x2)
+        c.ensure_eq(prefix + '.var.index_handles_on_one_material_object_are_independent', c.val(v1.value), x1)
+        c.ensure_eq(prefix + '.var.index_handles_on_one_material_object_are_independent', c.val(v2.value), x2)
+        n_after = [c.val(o.surface_group.surfaces[k].material_post.n(0.55)) for k in (1, 3)]
+        n_front = [c.val(o.surface_group.surfaces[k].material_pre.n(0.55)) for k in (2, 4)]
+        for a, b in zip(n_after, n_front):
+            c.ensure_eq(prefix + '.var.index_written_is_the_medium_in_front_of_the_next_surface', a, b)
+    return shared
 
 
 def _one(prefix, props, kind, scaling, n, s, tag=''):
